@@ -84,7 +84,9 @@ def build_items(tier, seed, wd):
     # documented option values no unit test uses (docs/configuring_*.rst tables), on every rule that has the option, with both
     # values of the companion options (harness/configs.py docval_config)
     # (..b: the same configuration with yes / no written as booleans - what an unquoted yes / no in a YAML file is read as)
-    dv = [(1, False, False), (1, True, False), (1, True, True)] if tier == "quick" else [(1, False, False), (1, True, False), (1, True, True), (1, False, True), (2, False, False), (2, True, False), (3, False, False), (3, True, False)]
+    # (the families added in the second session keep the quick-tier extent in the thorough tier: the thorough tier of the older
+    # families was baselined over every input, these were not - see DESIGN 0.6)
+    dv = [(1, False, False), (1, True, False), (1, True, True)]
     for k, flip, asbool in dv:
         cfg, rules = configs.docval_config(table, k, flip=flip)
         if asbool:
@@ -93,17 +95,17 @@ def build_items(tier, seed, wd):
         sweeps[tag] = cfg["rule"]
         cfgfile = configs.write_config(cfg, os.path.join(wd, tag + ".json"))
         untested = sorted(r for r in rules if any(a in ("case_control_statements_ends_group", "new_line_after_comma", "align_to", "alignment", "method", "action") for a in cfg["rule"][r]))
-        files = sorted(set(f for r in (untested if tier == "quick" else rules) for f in inputs.get(r, []) if f.endswith("_test_input.vhd"))) + [p for p in paths if "/styles/code_examples/" in p and p.endswith(".vhd")]
-        for p in (corpus.stratified_sample(files, 150, seed + 61 + k, always=("/styles/code_examples/",)) if tier == "quick" else files):
+        files = sorted(set(f for r in untested for f in inputs.get(r, []) if f.endswith("_test_input.vhd"))) + [p for p in paths if "/styles/code_examples/" in p and p.endswith(".vhd")]
+        for p in corpus.stratified_sample(files, 150, seed + 61 + k, always=("/styles/code_examples/",)):
             add(p, ["--fix", "-c", cfgfile], tag)
     # the example configurations the documentation shows (docs/*.rst code blocks), merged into a few whole configurations
     bundles = configs.doc_example_bundles()
-    for k, (cfg, rids, names) in enumerate(bundles if tier == "thorough" else bundles[:3]):
+    for k, (cfg, rids, names) in enumerate(bundles[:3]):
         tag = "docex%d" % (k + 1)
         sweeps[tag] = cfg["rule"]
         cfgfile = configs.write_config(cfg, os.path.join(wd, tag + ".json"))
         files = sorted(set(f for r in rids for f in inputs.get(r, []) if f.endswith("_test_input.vhd"))) + [p for p in paths if "/styles/code_examples/" in p and p.endswith(".vhd")]
-        for p in (corpus.stratified_sample(files, 90, seed + 71 + k, always=("/styles/code_examples/",)) if tier == "quick" else files):
+        for p in corpus.stratified_sample(files, 90, seed + 71 + k, always=("/styles/code_examples/",)):
             add(p, ["--fix", "-c", cfgfile], tag)
     # prefix / suffix exceptions of the case rules with a broad list of affixes, on files whose identifiers carry them
     for cname in (["upper"] if tier == "quick" else ["upper", "lower"]):
@@ -123,14 +125,14 @@ def build_items(tier, seed, wd):
     scheds = [["--fix_phase", "4"], ["--skip_phase", "3"], ["--fix_phase", "2"]]
     cand = [p for p in paths if p.endswith("_test_input.vhd") or "/styles/code_examples/" in p]
     for k, extra in enumerate(scheds):
-        files = corpus.stratified_sample(cand, 60 if tier == "quick" else 600, seed + 31 + k, always=("/styles/code_examples/",))
+        files = corpus.stratified_sample(cand, 60, seed + 31 + k, always=("/styles/code_examples/",))
         for p in files:
             add(p, ["--fix"] + extra, "sched:" + "_".join(extra).replace("--", ""))
     # the other documented indent style, given globally; two successive --fix runs (convergence under that style)
     st_cfg = configs.write_config({"rule": {"global": {"indent_style": "smart_tabs"}}}, os.path.join(wd, "smart_tabs.json"))
     sweeps["smart_tabs"] = {}
     cand = [p for p in paths if p.endswith("_test_input.vhd") or "/styles/code_examples/" in p]
-    for p in corpus.stratified_sample(cand, 90 if tier == "quick" else len(cand), seed + 41, always=("/styles/code_examples/",)):
+    for p in corpus.stratified_sample(cand, 90, seed + 41, always=("/styles/code_examples/",)):
         tid += 1
         items.append({"tid": tid, "path": p, "name": corpus.rel(p), "args": ["--fix", "-c", st_cfg], "tag": "smart_tabs", "rounds": 2})
     # generated designs (harness/gendesign.py): a fixed second corpus in which constructs meet that no fixture combines
@@ -157,11 +159,11 @@ def build_items(tier, seed, wd):
     base_inputs = [p for p in paths if p.endswith("_test_input.vhd") or "/styles/code_examples/" in p or "/rule_doc/" in p]
     # comments at every line end / between all lines, case, spacing.  (Line-break and join recipes are used for C05 -
     # classification - where the property names them; see DESIGN.md section 5 for why the fix family leaves them out.)
-    recipes = ["eol1", "eolt1", "own1", "upper", "widen", "tight", "lopl", "ownutf8a", "ownctl"] if tier == "quick" else ["lopl", "lopr", "eol1", "eolt1", "eol3a", "eol3b", "own1", "own3", "upper", "lower", "flip", "widen", "narrow", "tight", "tight2a", "tight2b", "ownutf8a", "ownutf8b", "ownutf8c", "ownctl"]  # not: break*, join*, breakcmt*
+    recipes = ["eol1", "eolt1", "own1", "upper", "widen", "tight", "lopl", "ownutf8a", "ownctl"] if tier == "quick" else ["lopl", "eol1", "eolt1", "eol3a", "eol3b", "own1", "own3", "upper", "lower", "flip", "widen", "narrow", "tight", "ownutf8a", "ownctl"]  # not: break*, join*, breakcmt*
     for ri, rname in enumerate(recipes):
-        nsel = 80 if tier == "quick" else len(base_inputs)
+        nsel = 80 if tier == "quick" or rname in ("tight", "lopl", "lopr") else len(base_inputs)
         if rname.startswith(("ownutf8", "ownctl")):
-            nsel = 30 if tier == "quick" else 300      # non-ASCII text in front of the file (file > 8 KiB, multi-byte characters across block boundaries)
+            nsel = 30      # non-ASCII text in front of the file (file > 8 KiB, multi-byte characters across block boundaries)
         chosen = corpus.stratified_sample(base_inputs, nsel, seed + 17 * (ri + 1), always=("/styles/code_examples/",))
         for p in chosen:
             try:
